@@ -620,6 +620,13 @@ type phiVal struct {
 // `a || b`, `x := cond`) are followed symbolically. complete=false when the
 // budget was exhausted.
 func pathAssignments(fn *ssa.Function, site ssa.Instruction, name func(ssa.Value) string) (envs []map[string]bool, complete bool) {
+	envs, _, complete = pathAssignmentsV(fn, site, name)
+	return
+}
+
+// pathAssignmentsV additionally returns the SSA value behind each atom name.
+func pathAssignmentsV(fn *ssa.Function, site ssa.Instruction, name func(ssa.Value) string) (envs []map[string]bool, atomVal map[string]ssa.Value, complete bool) {
+	atomVal = map[string]ssa.Value{}
 	type state struct {
 		atoms map[string]bool
 		phis  map[*ssa.Phi]phiVal
@@ -673,7 +680,11 @@ func pathAssignments(fn *ssa.Function, site ssa.Instruction, name func(ssa.Value
 				return pv
 			}
 		}
-		return phiVal{atom: name(v), neg: neg}
+		nm := name(v)
+		if _, ok := atomVal[nm]; !ok {
+			atomVal[nm] = v
+		}
+		return phiVal{atom: nm, neg: neg}
 	}
 	var visit func(b, pred *ssa.BasicBlock, s state)
 	visit = func(b, pred *ssa.BasicBlock, s state) {
@@ -753,5 +764,5 @@ func pathAssignments(fn *ssa.Function, site ssa.Instruction, name func(ssa.Value
 		visit(b.Succs[1], b, s2)
 	}
 	visit(fn.Blocks[0], nil, state{map[string]bool{}, map[*ssa.Phi]phiVal{}})
-	return envs, complete
+	return envs, atomVal, complete
 }
